@@ -184,7 +184,10 @@ func (s *clientSocket) registerSubEvents() {
 		openFunc ManagerOpenFunc = func() {
 			s.stateMu.Lock()
 			defer s.stateMu.Unlock()
-			if s.state == clientSocketConnStateConnectPending {
+			// `Connect` may already have sent the CONNECT packet (the manager was open by then),
+			// and the server may even have answered it. A second CONNECT packet for the
+			// same namespace makes the server close the whole connection.
+			if s.state == clientSocketConnStateConnectPending || s.state == clientSocketConnStateConnected {
 				return
 			}
 			s.state = clientSocketConnStateConnectPending
